@@ -348,7 +348,7 @@ def reduceCode (k : List (Cell K) → Cell K) (a : MArr K) (axes : List Nat) : M
 def sortCode (a : MArr K) (axis : Nat) : MArr K :=
   let hm := maxK P (filled P.negInf a.toList)
   ⟨a.shape, fun i =>
-    let o := i.eraseIdx axis
+    let o := dropAxes [axis] i
     (sortLane P hm (a.lane [axis] o)).getD (i.getD axis 0) ⟨hm, true⟩⟩
 
 /-- `_mean_or_sum` with derivatives (math_ops.py:101-108): the derivative is reduced by the same
